@@ -1088,7 +1088,16 @@ def _symdict_get(I, o, a, k):
     return v
 
 
+def _opaque_eq(I, o, a, k):
+    other = a[0]
+    if isinstance(other, SOpaque) and other.sort == o.sort:
+        return SBool(o.z == other.z)
+    return SBool(I.ctx.fresh_bool("opaque_eq"))   # equality with a value of another kind: unknown
+
+
 def install(reg):
+    reg.theory_methods[("pyobject", "__eq__")] = _opaque_eq
+    reg.theory_methods[("pyobject", "__ne__")] = lambda I, o, a, k: SBool(z3.Not(_opaque_eq(I, o, a, k).z))
     reg.theory_methods[("symdict", "get")] = _symdict_get
     reg.theory_methods[("symdict", "items")] = lambda I, o, a, k: TheoryObj("symiter", fields={"mk": lambda I2: (SOpaque("pyobject", I2.ctx.fresh("k", __import__("pyvc.values", fromlist=["usort"]).usort("pyobject"))), SOpaque("pyobject", I2.ctx.fresh("v", __import__("pyvc.values", fromlist=["usort"]).usort("pyobject"))))})
     B = reg.builtins
